@@ -42,6 +42,7 @@ class Ctx:
         self.real_binary = None
         self.t0 = time.time()
         self.exhaustive = False
+        self.blackbox = None        # set when the tagged driver does not build but the program does (see blackbox.py)
 
     # -- ids
     def fresh(self, prefix='c'):
@@ -51,7 +52,19 @@ class Ctx:
     # -- drivers
     def go(self, cases):
         if self.driver is None:
-            self.driver = core.GoDriver(core.build_go(True), self.pid)
+            try:
+                self.driver = core.GoDriver(core.build_go(True), self.pid)
+            except core.Infra as e:
+                if 'go build failed' not in str(e):
+                    raise
+                plain = core.build_go(False)        # Infra again (exit 2) if the program itself does not build
+                from .blackbox import BlackboxDriver
+                self.blackbox = BlackboxDriver(plain, self.pid)
+                self.driver = self.blackbox
+                self.problems.insert(0, Problem('corr', 'the in-process driver (build tag verif: the hooks and verif_driver.go) no longer builds against the current source '
+                                                'although the program itself builds: the correspondence through the hooks cannot be checked. The search for a failing input '
+                                                'went on with the untagged binary as a separate process (app cases without injected faults only). Compiler: ' + str(e)[-1200:]))
+                self.notes.append('black-box fallback: tagged build failed, untagged build succeeded')
         return self.driver.run(cases)
 
     def lean(self, cases):
@@ -90,6 +103,12 @@ class Ctx:
             self.samples.append(s)
 
     def problem(self, kind, what, case=None, detail=None, signature=None):
+        if self.blackbox is not None:
+            # verdicts about cases the black-box fallback could not run say nothing about the program
+            ids = {getattr(case, 'id', None), getattr(getattr(case, 'meta', {}).get('pair') if hasattr(case, 'meta') else None, 'id', None)}
+            if case is not None and (ids & self.blackbox.notrun):
+                self.count('blackbox:verdict-dropped')
+                return
         self.problems.append(Problem(kind, what, case, detail, signature))
 
     def elapsed(self):
@@ -231,8 +250,18 @@ def run_check(pid, tier, seed):
             ctx.problem('proof', 'theorem %s no longer checks: %s' % (name, reason[:600]))
         if not os.path.exists(core.HMDRIVER):
             raise core.Infra('hmdriver missing: ' + proof.get('log', '')[-800:])
-        mod.run(ctx)
-        if tier == 'thorough':
+        def guarded(f, *a):
+            # under the black-box fallback most unit modes come back as `notrun`; a module that cannot digest that stops early
+            try:
+                f(*a)
+            except core.Infra:
+                raise
+            except Exception:
+                if ctx.blackbox is None:
+                    raise
+                ctx.notes.append('black-box fallback: exploration stopped early: ' + traceback.format_exc()[-300:])
+        guarded(mod.run, ctx)
+        if tier == 'thorough' and ctx.blackbox is None:
             # as deep as the budget allows: the whole exploration again under two further generator seeds
             for k in (1, 2):
                 ctx.seed = seed + 7919 * k
@@ -245,11 +274,13 @@ def run_check(pid, tier, seed):
         if broken and not oracle and hasattr(mod, 'search'):
             log('%s: proof/correspondence break without a failing input; widening the search' % pid)
             budget = 120 if tier == 'quick' else 900
+            if ctx.blackbox is not None:
+                budget = 45 if tier == 'quick' else 300      # every case is a process of its own: a shorter widening
             t_search = time.time()
             k = 0
             while time.time() - t_search < budget and not [p for p in ctx.problems if p.kind == 'oracle']:
                 k += 1
-                mod.search(ctx, seed * 1000 + k)
+                guarded(mod.search, ctx, seed * 1000 + k)
                 if k >= 40:
                     break
     except core.Infra as e:
